@@ -103,6 +103,14 @@ NOTES = {
               "(cache invalidated) predicts"),
     "C07_8": ("only no-failing-input-found at first run (same gap as C07_7: no lost transaction retried on the same instance)",
               "the RB fault kind in harness/l1info (C07's L1 info tree part) => concrete failing input"),
+    "C10_7": ("MISSED at first run: every case built its certificate once, with fresh build parameters",
+              "harness/c10: before the attempt that is observed the same flow object builds once with the SAME build-parameters object (the aggchain proof that is stored with a "
+              "certificate and handed over again when its replacement is built) over different content; what that leaves behind must not show"),
+    "C14_8": ("MISSED at first run: the check drives facades built around ONE processor (as every unit test does); the change is in the wiring of l1infotreesync.New (a second processor for the facade)",
+              "tools/gofacts + Properties/C14.v: source-fact obligation src_one_processor_per_syncer (each constructor creates one processor and hands the same object to the driver and to the "
+              "facade) => reported as a broken obligation, no-failing-input-found: the harness has no route through the real New + driver wiring over a scripted L1 (recorded as a limit in DESIGN I.6)"),
+    "C15_7": ("only no-failing-input-found at first run (obligation: the translated tick no longer equals the model; 1 mismatch): no schedule put a root on L2 between a failed injection and its retry",
+              "harness/c15: one boundary schedule (an injection fails; before the next tick the root is on L2 after all; then a failure that left nothing behind and its retry)"),
     "C05_8": ("only no-failing-input-found at first run (754 correspondence mismatches: an extra empty block per removed log): the scripted node gave removed logs the canonical block hash",
               "harness/c05: every second removed log carries the hash of the block it was removed from (an orphan hash), as a real node reports it; "
               "the unchanged downloader drops removed logs before it looks at them, so nothing else moves"),
